@@ -1,5 +1,5 @@
 INIT InitM
 NEXT NextM
-CONSTANTS Dump = FALSE Size = "thorough"
+CONSTANTS Dump = FALSE Lite = FALSE Size = "thorough"
 INVARIANTS ToksAreEnc DecTotal DumpM
 CHECK_DEADLOCK FALSE
